@@ -200,7 +200,9 @@ func Open(ctx context.Context, S3 S3Interface, cfg Config, opts OpenOptions, whe
 	var skipUnreadable bool
 	var kvVersion int
 	var err error
-	persists := []mast.Persist{rootPersist}
+	// a listed version may be retired to root/merged/ by a concurrent commit
+	// before it is loaded here
+	persists := []mast.Persist{rootPersist, mergedPersist}
 	if opts.OnlyVersions != nil {
 		versionsToLoad = opts.OnlyVersions
 		persists = []mast.Persist{mergedPersist, rootPersist}
